@@ -155,6 +155,31 @@ def coq_check_property_file(prop):
     return rc == 0, names, out
 
 
+def coq_check_property_files(props, jobs=8):
+    """Force-recompile several Properties/<prop>.v files with one parallel make.
+    Returns {prop: (ok, theorem names)}, combined log."""
+    out = {}
+    lock = coq_lock()
+    try:
+        targets = []
+        for prop in props:
+            src = os.path.join(COQ, "Properties", prop + ".v")
+            txt_nc = re.sub(r"\(\*.*?\*\)", "", open(src).read(), flags=re.S)
+            out[prop] = [False, re.findall(r"^\s*(?:Theorem|Lemma|Corollary)\s+([A-Za-z0-9_']+)", txt_nc, flags=re.M)]
+            for ext in (".vo", ".glob", ".vok", ".vos"):
+                try:
+                    os.remove(src[:-2] + ext)
+                except FileNotFoundError:
+                    pass
+            targets.append("Properties/%s.vo" % prop)
+        rc, log = run(["make", "-k", "-j%d" % jobs] + targets, cwd=COQ, timeout=1800)
+        for prop in props:
+            out[prop][0] = os.path.exists(os.path.join(COQ, "Properties", prop + ".vo"))
+    finally:
+        lock.close()
+    return {k: tuple(v) for k, v in out.items()}, log
+
+
 def parse_assumptions(log):
     """Split the output of Print Assumptions commands."""
     closed = len(re.findall(r"Closed under the global context", log))
